@@ -1050,3 +1050,27 @@ def ddl_only_in_creators(prog, cg, eff, chk, rid):
     if not outside:
         chk.ok(rid, '%d DDL statements, all in the schema creator classes' % n, site='ddl')
     return n
+
+
+def no_unbounded_lock_wait(prog, chk, rid):
+    """A public call on a locked database ends (SQLite reports SQLITE_BUSY, the library throws): the repository
+    installs no busy handler (`sqlite3_busy_handler`), whose callback decides for itself whether to keep waiting -
+    one that always asks for another try makes every call wait for as long as another connection holds the lock.
+    (`sqlite3_busy_timeout` is bounded by its argument and is accepted.)"""
+    n = 0
+    hits = 0
+    for f in prog.functions.values():
+        if f.body is None or f.is_pattern or not prog.in_repo(f.file) or '/src/' not in (f.file or ''):
+            continue
+        n += 1
+        for x in walk(f.body):
+            if x.get('kind') == 'CallExpr' and children(x) and \
+                    (strip(children(x)[0]).get('referencedDecl') or {}).get('name') == 'sqlite3_busy_handler':
+                hits += 1
+                short = '::'.join((f.qualname or '').split('::')[-2:])
+                chk.violation(rid, '%s|installs a busy handler' % short, locstr(x),
+                              '%s installs a busy handler: whether a call on a locked database ever returns is then up to '
+                              'that callback, not to SQLite\'s bounded default (report SQLITE_BUSY at once)' % short)
+    if not hits:
+        chk.ok(rid, '%d repository functions install no busy handler' % n, site='busy')
+    return n
